@@ -203,7 +203,8 @@ def run_case(case, ctx):
                     break
         # C = other values in the shape of A (what an accumulator keyed on the shape would not notice)
         Cset = spec.data(numpy.random.RandomState(sub + 3))
-        hists = [("A", "B"), ("A", "q", "B"), ("A", "B", "A"), ("B", "q", "A"), ("A", "q", "C")]
+        # ("a" = the set A fitted under ANOTHER global seed: what the estimator drew then must not be reused now)
+        hists = [("A", "B"), ("A", "q", "B"), ("A", "B", "A"), ("B", "q", "A"), ("A", "q", "C"), ("a", "q", "A")]
         hists += [("A", "F" + g, "B") for g in sorted(Fs)] + [("F" + g, "q", "A") for g in sorted(Fs)[:1]]
         if not Fs:
             ctx.excluded("no invalid-input class is refused by this configuration")
@@ -231,6 +232,10 @@ def run_case(case, ctx):
                             spec.fit(e, _copy(F[1]))
                         except Exception:
                             ctx.hit("refit.after_failed_fit")
+                    elif h == "a":
+                        cur = "A"
+                        numpy.random.seed(sub + 99)
+                        spec.fit(e, _copy(sets["A"]))
                     else:
                         cur = h
                         numpy.random.seed(sub + 17)
